@@ -150,7 +150,8 @@ package comp
 //@ func (Line).set
 //@   requires 0 <= int32(l.Boundary[0]) && int(l.Boundary[1]) - int(l.Boundary[0]) == len(l.Data) && covers(l, addr)
 //@   ensures l.Data[addr - int32(l.Boundary[0])] == value
-//@   ensures forall k :: 0 <= k && k < len(l.Data) && k != addr - int32(l.Boundary[0]) ==> l.Data[k] == old(l.Data[k])
+//@   ensures at(l.Data, lo(l.Data) + int(addr) - int(l.Boundary[0])) == value
+//@   ensures forall a :: lo(l.Data) <= a && a < hi(l.Data) && a != lo(l.Data) + int(addr) - int(l.Boundary[0]) ==> at(l.Data, a) == old(at(l.Data, a))
 //@   assigns l.Data[*]
 
 //@ func NewLRUCache
@@ -352,3 +353,34 @@ package comp
 //@   requires s.write > 0
 //@   ensures s.write == old(s.write) - 1 && s.write >= 0
 //@   assigns s.write
+
+// ---------------------------------------------------------------- LRUCache.Write / sub-lines (C13, C05)
+//@ spec func firstCover(c *LRUCache, addr int32, i int) bool = 0 <= i && i < len(c.lines) && covers(c.lines[i], addr) && (forall j :: 0 <= j && j < i ==> !covers(c.lines[j], addr))
+//@ spec func distinctData(c *LRUCache) bool = forall i, j :: 0 <= i && i < j && j < len(c.lines) ==> !sameArray(c.lines[i].Data, c.lines[j].Data)
+
+// Write stores data at addr in the (first) line covering addr: exactly those
+// bytes change, recency order and every other byte are unchanged. The line
+// must cover the whole range [addr, addr+len(data)) (a range straddling two
+// lines indexes past Data: known finding F15, recorded at the call sites).
+//@ spec func wbase(c *LRUCache, addr int32, i int) int = lo(c.lines[i].Data) + int(addr) - int(c.lines[i].Boundary[0])
+//@ func (*LRUCache).Write
+//@   requires wfCache(c) && distinctData(c) && 0 <= addr && addr <= 1073741824 && len(data) <= 1048576
+//@   requires exists i :: firstCover(c, addr, i)
+//@   requires forall i :: firstCover(c, addr, i) ==> int(addr) + len(data) <= int(c.lines[i].Boundary[1]) && !sameArray(data, c.lines[i].Data)
+//@   ensures c.lines == old(c.lines) && (forall j :: 0 <= j && j < len(c.lines) ==> c.lines[j] == old(c.lines[j]))
+//@   ensures forall i, a :: firstCover(c, addr, i) && wbase(c, addr, i) <= a && a < wbase(c, addr, i) + len(data) ==> at(c.lines[i].Data, a) == old(data[a - wbase(c, addr, i)])
+//@   ensures forall i, a :: firstCover(c, addr, i) && lo(c.lines[i].Data) <= a && a < hi(c.lines[i].Data) && !(wbase(c, addr, i) <= a && a < wbase(c, addr, i) + len(data)) ==> at(c.lines[i].Data, a) == old(at(c.lines[i].Data, a))
+//@   ensures forall i, j, a :: firstCover(c, addr, i) && 0 <= j && j < len(c.lines) && j != i && lo(c.lines[j].Data) <= a && a < hi(c.lines[j].Data) ==> at(c.lines[j].Data, a) == old(at(c.lines[j].Data, a))
+//@   nooverflow Delta
+//@   assigns Delta, all []int8
+//@   loop 0: invariant forall j :: 0 <= j && j < _idx0 ==> !covers(c.lines[j], addr)
+//@   loop 1: invariant forall a :: wbase(c, addr, _idx0) <= a && a < wbase(c, addr, _idx0) + _idx1 ==> at(c.lines[_idx0].Data, a) == old(data[a - wbase(c, addr, _idx0)])
+//@   loop 1: invariant forall a :: lo(c.lines[_idx0].Data) <= a && a < hi(c.lines[_idx0].Data) && !(wbase(c, addr, _idx0) <= a && a < wbase(c, addr, _idx0) + _idx1) ==> at(c.lines[_idx0].Data, a) == old(at(c.lines[_idx0].Data, a))
+//@   loop 1: invariant forall j, a :: 0 <= j && j < len(c.lines) && j != _idx0 && lo(c.lines[j].Data) <= a && a < hi(c.lines[j].Data) ==> at(c.lines[j].Data, a) == old(at(c.lines[j].Data, a))
+//@   loop 1: invariant forall a :: lo(data) <= a && a < hi(data) ==> at(data, a) == old(at(data, a))
+
+//@ func getAlignedMemoryAddress
+//@   requires len(addrs) >= 1 && align > 0 && addrs[0] >= 0
+//@   ensures int32(result) == addrs[0] - addrs[0] % align
+//@   ensures 0 <= int32(result) && int32(result) <= addrs[0] && addrs[0] - int32(result) < align
+//@   assigns nothing
